@@ -60,6 +60,8 @@ class Enc:
             return self.V(S, e[1]) != e[2]
         if t == "eqv":
             return self.V(S, e[1]) == self.V(S, e[2])
+        if t == "ltv":
+            return z3.ULT(self.V(S, e[1]), self.V(S, e[2]))
         if t == "succ_eq":
             return self.V(S, e[1]) + 1 == self.V(S, e[2])
         if t == "succ_ne":
@@ -211,6 +213,8 @@ class Enc:
             return S[e[1]] != e[2]
         if t == "eqv":
             return S[e[1]] == S[e[2]]
+        if t == "ltv":
+            return S[e[1]] < S[e[2]]
         if t == "succ_eq":
             return (S[e[1]] + 1) % (1 << sort_of(e[1])) == S[e[2]]
         if t == "succ_ne":
